@@ -281,6 +281,16 @@ func (s *genState) emitRet(o int, want int64) string {
 	}
 	out := want - fee
 	change := inp - want
+	if len(s.owners) > 1 && s.r.Chance(25) { // part (or all) of the withdrawn amount goes to another producer's deposit address
+		o2 := s.owners[s.r.Intn(len(s.owners))]
+		if o2 != o && out > 0 {
+			other := out
+			if s.r.Chance(60) {
+				other = 1 + int64(s.r.U64()%uint64(out))
+			}
+			return s.g.Emit("ret %d %d %d %d %d %s %d %d", o, inp, tinp, change, out-other, strings.Join(chosen, ","), o2, other)
+		}
+	}
 	return s.g.Emit("ret %d %d %d %d %d %s", o, inp, tinp, change, out, strings.Join(chosen, ","))
 }
 
@@ -544,7 +554,14 @@ func (s *genState) randomTx() {
 		if r.Chance(10) {
 			v = int64(r.Pick(0, 1, retvFee, retvFee+1))
 		}
-		s.g.Emit("retv %d %d", k, v)
+		switch r.Intn(4) {
+		case 0: // payload V0: authorised by k, transaction program (fee payer) of another key
+			s.g.Emit("retv %d %d 0 %d", k, v, (k+1+r.Intn(4))%5)
+		case 1: // Schnorr version with a foreign payload.Code (ignored by the node)
+			s.g.Emit("retv %d %d 1 %d", k, v, (k+1+r.Intn(4))%5)
+		default:
+			s.g.Emit("retv %d %d", k, v)
+		}
 	}
 }
 
